@@ -85,7 +85,7 @@ def plan(tier, seed):
         b[1].append(it)
     jobs = [{"kind": "exh", "items": b[1], "seed": rng.randrange(2 ** 31),
              "hashseed": rng.randrange(100)} for b in bins if b[1]]
-    nrand, count = (16, 1000) if quick else (96, 7000)
+    nrand, count = (16, 1000) if quick else (96, 6000)
     for _ in range(nrand):
         jobs.append({"kind": "rand", "seed": rng.randrange(2 ** 31),
                      "count": count, "hashseed": rng.randrange(100)})
